@@ -375,6 +375,14 @@ var c17Kinds = []c17Kind{
 	{name: "rbac", r: "sub, obj, act", p: "sub, obj, act", g: "g = _, _",
 		matcher: "g(r.sub, p.sub) && r.obj == p.obj && r.act == p.act",
 		cols:    map[string][]string{"sub": c17Subs, "obj": c17Objs, "act": c17Acts}, names: c17Subs},
+	// names whose concatenations coincide (bo+badmin = bob+admin; across the domain: a+b,cd = a+bc,d):
+	// memoised g() answers must be kept apart
+	{name: "rbaccollide", r: "sub, obj, act", p: "sub, obj, act", g: "g = _, _",
+		matcher: "g(r.sub, p.sub) && r.obj == p.obj && r.act == p.act",
+		cols:    map[string][]string{"sub": {"bo", "bob", "badmin", "admin", "b", "obadmin"}, "obj": c17Objs[:2], "act": c17Acts[:1]}, names: []string{"bo", "bob", "badmin", "admin", "b", "obadmin"}},
+	{name: "rbacdomcollide", r: "sub, dom, obj, act", p: "sub, dom, obj, act", g: "g = _, _, _",
+		matcher: "g(r.sub, p.sub, r.dom) && r.dom == p.dom && r.obj == p.obj && r.act == p.act",
+		cols:    map[string][]string{"sub": {"a", "ab", "b", "bc", "c"}, "dom": {"d", "cd", "bcd"}, "obj": c17Objs[:1], "act": c17Acts[:1]}, names: []string{"a", "ab", "b", "bc", "c"}, doms: []string{"d", "cd", "bcd"}},
 	{name: "rbacres", r: "sub, obj, act", p: "sub, obj, act", g: "g = _, _\ng2 = _, _",
 		matcher: "g(r.sub, p.sub) && g2(r.obj, p.obj) && r.act == p.act",
 		cols:    map[string][]string{"sub": c17Subs, "obj": append([]string{"grp1", "grp2"}, c17Objs...), "act": c17Acts}, names: c17Subs},
